@@ -265,12 +265,30 @@ def tlc(module, cfg, workers=None, env=None, simulate=None, depth=None, extra=()
                 if line.startswith(pre) and line.endswith('">>'):
                     body = line[len(pre):-3]
                     # TLC prints the TLA+ string with \" and \\ escapes
-                    body = body.replace('\\"', '"').replace("\\\\", "\\")
+                    body = _unescape(body)
                     try:
                         res.lines.append((tg, json.loads(body)))
                     except json.JSONDecodeError:
                         res.lines.append((tg, body))
     return res
+
+
+def _unescape(b):
+    if "\\" not in b:
+        return b
+    out = []
+    i = 0
+    n = len(b)
+    while i < n:
+        c = b[i]
+        if c == "\\" and i + 1 < n:
+            d = b[i + 1]
+            out.append({"n": "\n", "t": "\t"}.get(d, d))
+            i += 2
+        else:
+            out.append(c)
+            i += 1
+    return "".join(out)
 
 
 def tlc_expect_ok(r, what):
